@@ -27,13 +27,30 @@ def gen(maxln, depth, fixed="1", timeout=3400, sound="0"):
 
 
 def run_scenarios(exe, mode, scs, wd, name, timeout=3400):
-    path = os.path.join(wd, name + ".ndjson")
-    vlib.write_ndjson(path, scs)
-    outp = os.path.join(wd, name + ".out.ndjson")
-    rc, _, err = vlib.run_harness(exe, ["stark", mode, "--scenarios", path], stdout_path=outp, timeout=timeout)
-    if rc != 0:
-        raise vlib.ToolError("stark %s harness rc=%s: %s" % (mode, rc, err[-800:]))
-    return vlib.read_ndjson(outp)
+    """runs `wfh stark <mode>` over the scenarios; large lists are split over parallel harness processes (results in order)"""
+    shards = 1 if len(scs) <= 48 else 14
+    parts = [scs[k::shards] for k in range(shards)]
+
+    def one(k):
+        if not parts[k]:
+            return []
+        path = os.path.join(wd, "%s_%d.ndjson" % (name, k))
+        vlib.write_ndjson(path, parts[k])
+        outp = os.path.join(wd, "%s_%d.out.ndjson" % (name, k))
+        rc, _, err = vlib.run_harness(exe, ["stark", mode, "--scenarios", path], stdout_path=outp, timeout=timeout)
+        if rc != 0:
+            raise vlib.ToolError("stark %s harness rc=%s: %s" % (mode, rc, err[-800:]))
+        res = vlib.read_ndjson(outp)
+        if len(res) != len(parts[k]):
+            raise vlib.ToolError("stark %s harness returned %d results for %d scenarios" % (mode, len(res), len(parts[k])))
+        return res
+
+    results = vlib.parallel(one, list(range(shards)), max_workers=shards)
+    out = [None] * len(scs)
+    for k in range(shards):
+        for j, r in enumerate(results[k]):
+            out[k + j * shards] = r
+    return out
 
 
 def judge_complete(v, sc, o, profile):
